@@ -796,6 +796,25 @@ def areaSer : List Subpacket → Option Bytes
 
 def areaWriteLen (ss : List Subpacket) : Nat := (ss.map subWriteLen).sum
 
+/-- the *hashed* area of a v4 / v6 signature: `subpackets()` followed by
+`ensure_hashed_area_canonical` (`signature/de.rs`): the parsed subpackets must write back to exactly
+the octets that were read — the digest covers that re-serialisation (`hash_signature_data`), so an
+area the parser would normalise (boolean octet other than 0/1, notation flag octet, MPI bit
+counts of an embedded signature) is refused.  Embedded signatures go through the same parser
+(`emb`), so the requirement holds at every nesting level. -/
+def areaParseCanon (emb : Bytes → Option Bytes) (raw : Bytes) : Option (List Subpacket) :=
+  match areaParse emb (raw.length + 1) raw with
+  | none => none
+  | some hs => if areaSer hs = some raw then some hs else none
+
+/-- the hashed-area octets of a v4 / v6 signature packet body, as received -/
+def rawHashedArea (body : Bytes) : Bytes :=
+  match body with
+  | v :: _ :: _ :: _ :: r =>
+    let w := if v.toNat = 6 then 4 else 2
+    (r.drop w).take (beNat (r.take w))
+  | _ => []
+
 /-- a subpacket as the parser returns it / `Subpacket::regular` builds it (except that `regular`
 always picks the minimal form) -/
 def SubWF (emb : Bytes → Option Bytes) (s : Subpacket) : Prop :=
@@ -884,7 +903,7 @@ def sigParse (emb : Bytes → Option Bytes) (b : Bytes) : Option Sig :=
           match take (beNat hl) r2 with
           | none => none
           | some (harea, r3) =>
-            match areaParse emb (harea.length + 1) harea with
+            match areaParseCanon emb harea with
             | none => none
             | some hashed =>
               match take (areaLenOctets v6) r3 with
